@@ -10,8 +10,28 @@
 //   8 r                  image bytes of r
 //   9 r kind             legacy image of r's content synthesised from the documented layout, read back on all paths
 //   a r bytes(path)*     load the file through r's readers (bytes, stream, wrap); flags + printable observation
-//   63 seed / 62 v*      random source (99 / 98)
+//   b r byte*            load the inline image through r's readers; same output as `a` (baseline corpus)
+//   c r byte*            compare the image r writes now with the inline image (baseline corpus)
+//   63 seed              reseed the random source
+#define SERDE_DEFINE_ALLOC
+#ifdef SERDE_PREBUILT   // the family adapters were compiled separately (serde_fams.hpp with -DSERDE_GROUP=1..5) and are linked in
+#include "serde_core.hpp"
+namespace sd {
+Obj* build_g1(int, const Line&); Obj* build_g2(int, const Line&); Obj* build_g3(int, const Line&); Obj* build_g4(int, const Line&); Obj* build_g5(int, const Line&);
+void reseed(uint64_t);
+inline Obj* build(int fam, const Line& t) {
+  Obj* p = nullptr;
+  if ((p = build_g1(fam, t))) return p;
+  if ((p = build_g2(fam, t))) return p;
+  if ((p = build_g3(fam, t))) return p;
+  if ((p = build_g4(fam, t))) return p;
+  return build_g5(fam, t);
+}
+inline I arg(const Line& t, size_t i, I dflt = 0) { return i < t.size() ? t[i] : dflt; }
+}
+#else
 #include "serde_fams.hpp"
+#endif
 using namespace sd;
 
 static std::map<long, std::unique_ptr<Obj>> regs;
@@ -45,7 +65,7 @@ static void load_image(Obj& proto, const Bytes& img, Obj* same_as, Out& o) {
   if (a) a->observe(la, 1);
   if (b) { b->observe(lb, 1); if (a && la != lb) agree = 0; }
   if (w) { w->observe(lw, 1); if (a && la != lw) agree = 0; }
-  if (same_as && a) { Line lr; same_as->observe(lr, 1); eq = (lr == la) ? 1 : 0; }
+  if (same_as && a) { Line lr, l0; same_as->observe(lr, 0); a->observe(l0, 0); eq = (lr == l0) ? 1 : 0; }
   o.R(fb); o.R(fs); o.R(fc); o.R(fw); o.R(agree); o.R(eq);
   Obj* p = a ? a.get() : b ? b.get() : w.get();
   if (p) { p->observe(lp, 0); for (I v : lp) o.R(v); }
@@ -73,7 +93,7 @@ static void handler(const Line& t, Out& o) {
   case 9: {
     Obj& x = get(t.at(1));
     Bytes img;
-    if (!legacy_image(x, (int)t.at(2), img)) { o.R(2); break; }
+    if (!x.legacy((int)t.at(2), img)) { o.R(2); break; }
     o.R(1);
     load_image(x, img, &x, o);
     break; }
@@ -81,7 +101,22 @@ static void handler(const Line& t, Out& o) {
     Obj& x = get(t.at(1));
     Bytes img = read_file(vh::bytes_of(t, 2));
     o.R((I)img.size());
-    load_image(x, img, &x, o);
+    load_image(x, img, nullptr, o);
+    break; }
+  case 0xb: {
+    Obj& x = get(t.at(1));
+    Bytes img; for (size_t i = 2; i < t.size(); ++i) img.push_back((uint8_t)t[i]);
+    o.R((I)img.size());
+    load_image(x, img, nullptr, o);
+    break; }
+  case 0xc: {   // the image r writes now vs. the inline image: 1 identical, 3 identical up to the order of a stored hash table, 0 different, -2 different length
+    Obj& x = get(t.at(1));
+    Bytes img; for (size_t i = 2; i < t.size(); ++i) img.push_back((uint8_t)t[i]);
+    Bytes cur = x.ser(0);
+    if (cur == img) o.R(1);
+    else if (cur.size() != img.size()) o.R(-2);
+    else if (x.unordered_layout(cur) && x.canon(cur) == x.canon(img)) o.R(3);
+    else o.R(0);
     break; }
   default: o.R(-2);
   }
